@@ -33,6 +33,8 @@ mod c15;
 mod c16;
 #[cfg(feature = "c19")]
 mod c19;
+#[cfg(feature = "c19")]
+mod c19b;
 #[cfg(feature = "c20")]
 mod c20;
 
@@ -73,6 +75,8 @@ fn registry() -> Vec<HarnessDef> {
     c16::register(&mut v);
     #[cfg(feature = "c19")]
     c19::register(&mut v);
+    #[cfg(feature = "c19")]
+    c19b::register(&mut v);
     #[cfg(feature = "c20")]
     c20::register(&mut v);
     v
